@@ -2,6 +2,7 @@
    input lines "ID<TAB>INPUT":
      types N {struct goName reg|- nfields {name tag|- emb ty}} NI {iface name k impl..}    (sets the type table)
      togo <Target> <record>   |  echo <Target> <record>  |  mix <Target> <record>
+     paths <Target>           (field table: DetOrder and key map)   |  slot <ty> <value>  (bare value into a bare slot; MODEL carries ' ^verdict')
    record/value grammar (prefix, space separated):
      I<z> F<bits> S<hex> Q<hex> B0|B1 Y<hex> T<z> Z U<z> C<z> | A n v.. | R id typename n {key v} | H id n {key v} | X<id>
    type grammar: i(int64) j(int) f s b y t L<ty> P:<struct> V:<struct> N:<iface> M<ty> ?
@@ -308,6 +309,47 @@ let () =
          let ss = if List.mem "-" !souts then "-" else ss in
          let differs = List.exists2 (fun m s0 -> s0 <> "~" && m <> s0) !mouts !souts in
          Printf.printf "%s\t%s\t%s%s\n" id ms ss (if differs && ms <> "OOM" && ss <> "-" then "|other" else "")
+       | ["paths"; target] ->
+         (* the field table of a struct type: D = entries in DetOrder (key=path), M = the map key -> path.
+            model: GoConv.jsonmap / lookup_last (hashutils.go:fillJsonMap); specification: the independent flattening
+            spec_dets and Go's selector rule spec_find *)
+         let te = !cur_te in
+         let t = str_of_string target in
+         let path p = String.concat "." (List.map (fun n -> string_of_int (int_of_nat n)) p) in
+         let jm = jsonmap fuel te t [] in
+         let keys l = List.sort_uniq compare (List.map string_of_str l) in
+         let md = String.concat "," (List.map (fun (k, p) -> string_of_str k ^ "=" ^ path p) jm) in
+         let mm = String.concat "," (List.map (fun k -> k ^ "=" ^ (match lookup_last (str_of_string k) jm with Some p -> path p | None -> "?"))
+                                       (keys (List.map fst jm))) in
+         let sd0 = spec_dets fuel te t [] in
+         let sd = String.concat "," (List.map (fun (k, (p, _)) -> string_of_str k ^ "=" ^ path p) sd0) in
+         let sm = String.concat "," (List.map (fun k -> k ^ "=" ^ (match spec_find fuel te t (str_of_string k) with Some p -> path p | None -> "?"))
+                                       (keys (List.map fst sd0))) in
+         Printf.printf "%s\tD:%s;M:%s\tD:%s;M:%s\n" id md mm sd sm
+       | "slot" :: ty :: rest ->
+         (* a bare value converted into a bare slot of type ty (SexpToGoStructs(v, new(T), env, nil, 1, _)): model conv,
+            specification denote, and the verdict of the proved (value kind x slot kind) table *)
+         let te = !cur_te in
+         let (v, _) = parse_value rest in
+         let gty = parse_ty ty in
+         let tags = ref [] in
+         let m = (match zero_of fuel te gty with
+                  | None -> OutOfModel
+                  | Some z -> conv fuel te false gty z v empty_state) in
+         let ms = (match m with
+                   | Ok (x, st) -> "OK " ^ render_go st.heap x
+                   | Err | Crash _ -> "ERR" | OutOfFuel -> "FUEL" | OutOfModel -> "OOM") in
+         let verdict = (match kind_table (skind_of v) (tkind_of gty) with
+                        | VAccept -> "accept" | VReject -> "reject" | VKeeps -> "keeps" | VZero -> "zero"
+                        | VDepends -> "depends" | VSilent -> "silent") in
+         let s = denote fuel te gty v in
+         let ss = (match s with SOk d -> "OK " ^ render_d d | SErr _ -> "ERR" | SSilent -> "-" | SFuel -> "FUEL") in
+         (match s, m with
+          | SErr c, (Ok _ | OutOfModel) -> add tags (tag_of_cause c)
+          | SOk _, (Err | Crash _) -> add tags "other"
+          | SOk _, Ok _ -> if ms <> ss then add tags "other"
+          | _ -> ());
+         Printf.printf "%s\t%s ^%s\t%s%s\n" id ms verdict ss (show_tags tags)
        | op :: target :: rest ->
          let (r, _) = parse_value rest in
          let t = str_of_string target in
